@@ -119,7 +119,8 @@ func (a *Atom) Deref(_ context.Context) (MalType, error) {
 }
 
 func (a *Atom) LispPrint(pr_str func(MalType, bool) string) string {
-	return "«atom " + pr_str(a.Val, true) + "»"
+	val, _ := a.load()
+	return "«atom " + pr_str(val, true) + "»"
 }
 
 // Future
